@@ -527,9 +527,19 @@ impl<'a> TypeHumanizer<'a> {
     // ─── Array ──────────────────────────────────────────────────────
 
     fn write_array_type<W: Write>(&mut self, inner: &LuaType, w: &mut W) -> fmt::Result {
+        // An optional element type ends in `?`; without parentheses `T?[]` reads back as `T?`
+        // followed by a stray `[]`, so write `(T?)[]`.
+        let needs_parens =
+            matches!(inner, LuaType::Union(union) if union.into_vec().iter().any(|t| t.is_nil()));
         let saved = self.level;
         self.level = self.child_level();
+        if needs_parens {
+            w.write_char('(')?;
+        }
         self.write_type(inner, w)?;
+        if needs_parens {
+            w.write_char(')')?;
+        }
         self.level = saved;
         w.write_str("[]")
     }
